@@ -4,26 +4,38 @@
 (* one stage list; AddStage appends any stage of the alphabet, so the      *)
 (* reachable states are exactly the stage lists of length <= MaxLen (one   *)
 (* per orbit of the letter permutations when SYMMETRY LetterSym is on).    *)
+(* Join types: every stage may be AND; a non-AND join type is put only on  *)
+(* a real join (>= 2 requisites; with fewer, "any" and "all" upstreams     *)
+(* coincide), on at most MaxNonAnd stages of a list, in lists of at most   *)
+(* JoinMaxLen stages, and - when JoinUniqueOnly - only while the refs are  *)
+(* unique (lists with duplicate refs are rejected before any ordering).    *)
 (* Every distinct state is exported once, with the verdicts the            *)
 (* definitions of Graph give for it, through the side effect of the        *)
 (* invariant Export (TLC evaluates invariants on new distinct states only).*)
 (***************************************************************************)
 EXTENDS Graph, TLC, Json
 
-CONSTANTS MaxLen
+CONSTANTS MaxLen, MaxNonAnd, JoinMaxLen, JoinUniqueOnly
 VARIABLE g
 
 Init == g = <<>>
 
+NonAnd(gr) == Cardinality({i \in Idx(gr) : gr[i].join # "AND"})
+
 AddStage(s) == /\ Len(g) < MaxLen
                /\ g' = Append(g, s)
+               /\ s.join # "AND" => /\ Cardinality(s.reqs) >= 2
+                                     /\ NonAnd(g) < MaxNonAnd
+                                     /\ JoinUniqueOnly => UniqueRefs(g')
+               \* a list that carries a non-AND join grows only up to JoinMaxLen stages
+               /\ NonAnd(g') > 0 => Len(g') <= JoinMaxLen
 
 Next == \E s \in Stage : AddStage(s)
 
 LetterSym == Permutations(Refs)
 
-\* model values print as their names; stages are exported as <<ref, reqs>> pairs
-Enc(gr) == [i \in Idx(gr) |-> <<ToString(gr[i].ref), {ToString(r) : r \in gr[i].reqs}>>]
+\* model values print as their names; stages are exported as <<ref, reqs, join>> triples
+Enc(gr) == [i \in Idx(gr) |-> <<ToString(gr[i].ref), {ToString(r) : r \in gr[i].reqs}, gr[i].join>>]
 LayerSeq(gr) == [k \in 1..Len(Layers(gr)) |-> Layers(gr)[k]]
 
 Export ==
